@@ -107,6 +107,17 @@ def positional_mutants(d, rng):
                 sp['params'] = ['SIMPLE_PINHOLE'] + list(sp['params'][1:3]) + ['500', '320', '240']
             out.append({'d': d, 'other': m, 'mode': 'mut', 'side': rng.choice(['a', 'b']),
                         'info': {'part': 'sensors', 'kind': 'alter', 'expect_equal': False, 'pos': 'model-not-first'}})
+    for kind, fields in (('descriptors', ('keypoints_type', 'metric_type')), ('global_features', ('metric_type',))):
+        # one more mutant per dataset and header field: a descriptor set attached to ANOTHER keypoints type / with another metric,
+        # everything else (name, element type, size, images) the same
+        for field in fields:
+            if d[kind]:
+                m = copy.deepcopy(d)
+                t = sorted(m[kind])[-1]
+                others = [k for k in (m['keypoints'] or {}) if k != m[kind][t].get(field)] if field == 'keypoints_type' else []
+                m[kind][t][field] = others[0] if others else str(m[kind][t].get(field)) + '_x'
+                out.append({'d': d, 'other': m, 'mode': 'mut', 'side': rng.choice(['a', 'b']),
+                            'info': {'part': kind, 'kind': 'alter', 'expect_equal': False, 'pos': 'header:' + field}})
     if d['observations']:
         # one more mutant per dataset with observations: an existing (image, feature) pair listed once more for its point
         _FORCE[0] = 'dup'
@@ -366,7 +377,7 @@ def cases(rng, tier):
     out = [gen_case(rng) for _ in range(n)]
     opts = kgen.Opts(dtype_instances=0.3, p_part=0.9, id_pool=3, fancy_ids=False, max_rows=4, image_pool=4, partial_poses=True, special_floats=False,
                      histories=True)
-    for _ in range(15 if tier == 'quick' else 300):
+    for _ in range(40 if tier == 'quick' else 400):
         out.extend(positional_mutants(kgen.gen_dataset(rng, opts), rng))
     return out
 
